@@ -226,7 +226,12 @@ def add_flatten(rnd, spec, info, force=None, ei=0):
     pre_split = None
     if (rnd.random() < 0.4 or force == "split-then-flatten"):
         pre_split = rnd.choice(fr)
-        parts[pre_split] = ["uniform_shape(%d)" % rnd.randint(2, 5)]
+        if rnd.random() < 0.35:
+            # dynamic flattening: the member is split by occupancy first
+            parts[pre_split] = ["uniform_occupancy(%s.%d)" % (tname, rnd.randint(2, 5))]
+            tags.append("dynamic-flatten")
+        else:
+            parts[pre_split] = ["uniform_shape(%d)" % rnd.randint(2, 5)]
         flat_members = [r if r != pre_split else r + "0" for r in fr]
         tags.append("split-then-flatten")
     rnd.shuffle(flat_members)
